@@ -30,6 +30,7 @@ import c15
 import mir2
 import mirsmt
 import report
+import second
 from mirsmt import Unsupported
 
 LOC = c15.LOC
@@ -163,7 +164,7 @@ def prove(st, claim, what, res):
     s.add(st.pc)
     s.add(z3.Not(claim))
     t0 = time.time()
-    r = s.check()
+    r = second.check(s, 'C16 path query')
     res["solver_s"] += time.time() - t0
     res["solver_checks"] += 1
     if r == z3.sat:
@@ -427,6 +428,9 @@ def run(tier, seed):
         except Unsupported as e:
             inconclusive.append("native stage: %s" % str(e)[-500:])
     wall = time.time() - t0
+    so, so_problems = second.verdict()
+    for pr in so_problems:
+        inconclusive.append("second opinion: " + pr)
     report.write_evidence(prop, tier, seed, "model_checking", {
         "evaluations": sum(r["paths"] for r in runs) or 1, "distinct_nontrivial": max(2, len(runs)),
         "rule": "one symbolic execution per (setter, view used to set, view used to get, views made before/after the set) and one for sub-context creation; every MIR path is one evaluation; each claim on the resulting cells is a z3 query",
@@ -437,6 +441,7 @@ def run(tier, seed):
         "solver": "z3 %s" % z3.get_version_string(), "solver_s": round(sum(r.get("solver_s", 0) for r in runs), 3),
         "functions_encoded": sorted(fns), "mir_calls_summarised": sorted(calls),
         "bounds": "one operation from an arbitrary state of two contexts' cells (induction over histories); views: none, scope, scope_ctx_util and chains of two (thorough: three); setters set_locale, set_locale_untracked; getters get_locale, get_locale_untracked, get_keys, get_keys_untracked; sub-context creation with all combinations of initial locale / cookie name / cookie symbolic and a parent present. Outside: leptos' notification order (that a subscribed `t!` closure re-runs after set_locale), islands, signals the caller wires into `initial_locale`.",
+        "second_opinion": so,
         "inconclusive": inconclusive,
     }, wall, [
         "RwSignal<L> is a cell: get/get_untracked return the last value written by new/set/a write guard (leptos contract)",
